@@ -726,7 +726,7 @@ func TestC22(t *testing.T) {
 	// corpus: the four witnesses
 	runCase(t, r, 1, []opSpec{{Kind: "add-node", A: "n", B: "p", Fault: nf, Pause: 2}, {Kind: "remove-pod", A: "p", Fault: nf, Pause: 64}}, map[string]any{"corpus": "addnode-removepod"})
 	runCase(t, r, 2, []opSpec{{Kind: "create", A: "n", Fault: nf, Pause: 6}, {Kind: "remove-node", A: "n", Fault: nf, Pause: 64}}, map[string]any{"corpus": "create-removenode"})
-	runCase(t, r, 2, []opSpec{{Kind: "remove-node", A: "n", Fault: 3, Pause: 64}}, map[string]any{"corpus": "removenode-plugin-fault"})
+	runCase(t, r, 2, []opSpec{{Kind: "remove-node", A: "n", Fault: 4, Pause: 64}}, map[string]any{"corpus": "removenode-plugin-fault"})
 	runCase(t, r, 2, []opSpec{{Kind: "remove-node", A: "n", Fault: nf, Pause: 1}, {Kind: "remove-node", A: "n", Fault: nf, Pause: 64},
 		{Kind: "add-node", A: "n", B: "p", Fault: nf, Pause: 1}}, map[string]any{"corpus": "stale-removenode"})
 	// pods whose nodes are all down / bypassed still have nodes: RemovePod must be refused
